@@ -74,3 +74,19 @@ func VerifC10_V1Lookup() {
 		}
 	}
 }
+
+// VerifC17_V1ConcurrentLookups: two settings lookups on the same legacy
+// configuration (they run under a shared read lock in production) have no
+// unsynchronised conflicting accesses.
+func VerifC17_V1ConcurrentLookups() {
+	cfg := &ExecutionConfig{ProposerConfigs: map[phase0.BLSPubKey]*ProposerConfig{},
+		DefaultConfig: &ProposerConfig{FeeRecipient: bellatrix.ExecutionAddress{1}}} // no gas limit, no builder section
+	for i := 0; i < 2; i++ {
+		go func() {
+			_, _ = cfg.ProposerConfig(context.Background(), nil, phase0.BLSPubKey{7}, bellatrix.ExecutionAddress{0xfa}, 30000000)
+		}()
+	}
+	left := vnd.Quiesce()
+	vnd.Assert(left == 0, "C17.v1.everything-returns")
+	vnd.Cover("C17.v1.overlap-explored")
+}
